@@ -263,6 +263,22 @@ def relabel(ctx, struct, how, dim, appended=()):
         full = list(st['labels'][dim])
         full[0] = new[0]
         f = lambda: ds.axes[list(ds.dims).index(dim)].__setitem__(0, new[0])
+    elif how in ('set_axis-callable', 'var.set_axis-callable', 'axis.set-callable'):
+        # a mapper applied to every label: old label -> new label at the same position (labels are not hashed)
+        old = list(st['labels'][dim])
+
+        def mapper(l):
+            for o, n_ in zip(old, new):
+                if l == o:
+                    return n_
+            return l
+        if how == 'set_axis-callable':
+            f = lambda: ds.set_axis(mapper, axis=dim)
+        elif how == 'var.set_axis-callable':
+            k = [k for k in st['vars'] if dim in st['vars'][k].dims][0]
+            f = lambda: ds[k].set_axis(mapper, axis=dim)
+        else:
+            f = lambda: ds.axes[dim].set(mapper)
     elif how == 'set_axis_pos':
         f = lambda: ds.set_axis(ctx.nparray(new, kind=kind), axis=list(ds.dims).index(dim))
     elif how == 'attr':
@@ -450,7 +466,7 @@ def templates():
         for dim in dims:
             for how in ('axis.name', 'ds.dims', 'set_axis', 'rename_axes', 'rename_axes_fn', 'var.axis.name', 'var.dims', 'rename_axes_copy'):
                 add('rename-%s-%s-%s' % (sname, dim, how), 'rename', cost=0.2, struct=sname, how=how, dim=dim)
-            for how in ('axes[d]=Axis', 'axes[pos]=Axis', 'axes[negpos]=Axis', 'axes[pos][i]=label', 'axes[d]=values', 'axes[d][i]=label', 'set_axis', 'set_axis_pos', 'attr', 'axis.values', 'var.axis[i]', 'var.set_axis', 'set_axis_copy', 'var.labels', 'var.attr'):
+            for how in ('set_axis-callable', 'var.set_axis-callable', 'axis.set-callable', 'axes[d]=Axis', 'axes[pos]=Axis', 'axes[negpos]=Axis', 'axes[pos][i]=label', 'axes[d]=values', 'axes[d][i]=label', 'set_axis', 'set_axis_pos', 'attr', 'axis.values', 'var.axis[i]', 'var.set_axis', 'set_axis_copy', 'var.labels', 'var.attr'):
                 add('relabel-%s-%s-%s' % (sname, dim, how), 'relabel', cost=0.3, struct=sname, how=how, dim=dim)
             add('wrongsize-%s-%s' % (sname, dim), 'wrong_size', cost=0.2, struct=sname, dim=dim)
             for how in ('setitem-label', 'ix', 'values', 'fill', 'put', 'imul'):
